@@ -485,7 +485,6 @@ func c12applyField(data []byte, pos, width int, enc, class string) []byte {
 	return out
 }
 
-
 // ---- jobs -----------------------------------------------------------------------------------------------------------
 
 var c12FormatSeeds = map[string][][2]string{ // format -> (parser, seed file)
@@ -497,7 +496,7 @@ var c12FormatSeeds = map[string][][2]string{ // format -> (parser, seed file)
 	"blocktime":                 {{"blocktime", "blocktime"}},
 	"gsfa_manifest":             {{"manifest", "manifest"}, {"gsfa-dir:manifest", "manifest"}},
 	"gsfa_linkedlog":            {{"linkedlog", "linkedlog"}, {"gsfa-dir:linkedlog", "linkedlog"}},
-	"car":                       {{"car", "car"}, {"car-at", "car"}},
+	"car":                       {{"car", "car"}, {"car-info", "car"}, {"car-at", "car"}},
 	"indexmeta":                 {{"indexmeta", "indexmeta"}},
 }
 
@@ -553,7 +552,7 @@ func c12Jobs(s *c12Seeds, cases []c12Case, seed int64, quick bool) []c12Job {
 		ps{"sigexists", "sigexists", true, false}, ps{"dep-sigexists", "dep-sigexists", false, false}, ps{"blocktime", "blocktime", true, false},
 		ps{"manifest", "manifest", false, false}, ps{"linkedlog", "linkedlog", false, false}, ps{"gsfa-dir:pubkey", "pubkey", true, false},
 		ps{"gsfa-dir:linkedlog", "linkedlog", true, false}, ps{"gsfa-dir:manifest", "manifest", true, false},
-		ps{"car", "car", false, false}, ps{"car-at", "car", false, false}, ps{"indexmeta", "indexmeta", false, false})
+		ps{"car", "car", false, false}, ps{"car-info", "car", false, false}, ps{"car-at", "car", false, false}, ps{"indexmeta", "indexmeta", false, false})
 	for _, n := range s.truth.Nodes {
 		targets = append(targets, ps{"node", n, false, true})
 	}
@@ -682,7 +681,7 @@ func c12Jobs(s *c12Seeds, cases []c12Case, seed int64, quick bool) []c12Job {
 		}
 	}
 	// (3) random byte strings for the pure-bytes parsers
-	for _, p := range []string{"node", "txmeta", "indexmeta", "compactindex:slot-to-cid", "dep-compactindex", "dep-compactindex36", "dep-sigexists", "blocktime", "manifest", "linkedlog", "car", "sigexists-raw"} {
+	for _, p := range []string{"node", "txmeta", "indexmeta", "compactindex:slot-to-cid", "dep-compactindex", "dep-compactindex36", "dep-sigexists", "blocktime", "manifest", "linkedlog", "car", "car-info", "sigexists-raw"} {
 		p := p
 		n := 300 * scale
 		for i := 0; i < n; i++ {
@@ -991,7 +990,10 @@ func c12Run(s *c12Seeds, job c12Job, data []byte, scratch string) (res string) {
 				}
 			}
 		}
-		cr, err = carreader.New(io.NopCloser(bytes.NewReader(data)))
+	case p == "car-info":
+		// (a separate job: each open may allocate up to the 32 MiB header / section cap by design)
+		cr, err := carreader.New(io.NopCloser(bytes.NewReader(data)))
+		note(err)
 		if err == nil {
 			for i := 0; i < 200000; i++ {
 				if i%2 == 0 {
@@ -1299,4 +1301,3 @@ func TestVerifC12(t *testing.T) {
 	}
 	t.Logf("%d jobs, %d process deaths", len(jobs), restarts)
 }
-
